@@ -144,6 +144,19 @@ Proof.
   exact (ldf_refines_fresh K Keqb Keqb_spec rnd eps eps_nonneg eps_le1 rnd_err rnd_proper).
 Qed.
 
+(* EVERY history: a stored weight is within [(1-eps)^j, (1+eps)^j] of the weight the
+   specification of Props/C16.v assigns, j = number of increments in the history; the
+   candidate sets agree exactly (wrel relates None only to None) *)
+Theorem C16f_stored_weights_relative_every_history :
+  forall (ops : list (op K)) (s : ld K),
+    Forall (op_ok K true) ops -> Forall (op_rep K rnd) ops ->
+    ldf_run K Keqb rnd (ld_empty true) ops = Ok s ->
+    forall x, wrel eps (count_upd K ops) (abs K s x)
+                (fold_left (sp_step K Keqb) ops (sp_empty K) x).
+Proof.
+  exact (ldf_weights_relative K Keqb Keqb_spec rnd eps eps_nonneg eps_le1 rnd_err rnd_proper).
+Qed.
+
 End C16f.
 
 (* ---------- binary64: the hypothesis is a theorem ---------- *)
@@ -206,6 +219,7 @@ Print Assumptions C16f_accept_threshold_relative.
 Print Assumptions C16f_insert_stores_exactly.
 Print Assumptions C16f_update_relative_error.
 Print Assumptions C16f_stored_weights_exact_when_increments_create.
+Print Assumptions C16f_stored_weights_relative_every_history.
 Print Assumptions C16f_binary64_rounding_error.
 Print Assumptions C16f_binary64_rounding_respects_eq.
 Print Assumptions C16f_binary64_drift_bound_history.
